@@ -398,10 +398,14 @@ class HistogramND(HistogramBase):
             )
         if weights is not None:
             weights = np.asarray(weights)
+            if weights.shape != values_array.shape[:1]:
+                raise ValueError(
+                    f"Weights must have one item per row of values, {weights.shape} != {values_array.shape[:1]}"
+                )
         if dropna:
             array_mask = ~np.isnan(values_array).any(axis=1)
             values_array = values_array[array_mask]
-            if weights is not None and weights.shape == array_mask.shape:
+            if weights is not None:
                 weights = weights[array_mask]
         if weights is not None:
             # TODO: Check for weights size?
